@@ -24,6 +24,7 @@
 import MdProofs.C05
 import MdProofs.Lemmas.Process
 import MdProofs.Lemmas.OpAnalysis
+import MdProofs.Lemmas.ArgRecovery
 namespace MdModel.Process
 open MdModel MdModel.Walk
 
@@ -456,6 +457,71 @@ example : memAccesses ⟨.ADD, some (some 4), [.deref "eax", .imm, .deref "rax"]
     .ok .regInvalid := by decide
 
 end OpAnalysisTheorems
+
+/-! ## (2c) "without panicking": x86 argument recovery (arg_recovery.rs, `recover_function_args`)
+
+`MdModel.ArgRecovery` is the whole of `fill_arguments` / `parse_x86_arg_list` at byte level. Every
+loop of the model is structural recursion over the bytes of the function name, the argument list
+or the frame list: termination is by construction. -/
+
+section ArgRecoveryTheorems
+open MdModel.ArgRecovery
+
+/-- **the function-signature parser never panics** on a function name that is a Rust `String`
+    (valid UTF-8) shorter than 2 GiB: the `&str` slices `arg_list[arg_start..idx]` are taken at an
+    ASCII comma and right behind it (character boundaries — a continuation byte never follows an
+    ASCII byte, `valid_nca`), `arg_start ≤ idx` always, and the two `i32` nesting depths count
+    bytes of the name. It yields at most as many arguments as the name has bytes. -/
+theorem arg_list_parse_no_panic (name : Bytes) (hv : validUtf8 name = true) (hl : name.length ≤ I32MAX) :
+    ∃ r, parseArgList name = .ok r ∧ ∀ cc l, r = some (cc, l) → l.length ≤ name.length :=
+  parseArgList_ok name hv hl
+
+/-- **`fill_arguments` never panics** on the frames of an x86 thread: every frame's stack pointer
+    is a `u32` (`CONTEXT_X86.esp`; the unwinders build caller contexts of the callee's type), every
+    function name is valid UTF-8 below 2 GiB (a symbol-file line, C09). The read head starts at a
+    caller's `esp` — or at the saturated end of the stack memory, where it can never move —, is
+    advanced by 4 only while below the limit and at most once per argument (+ `this`):
+    `read_head += POINTER_WIDTH` stays below `2^32 + 4·(2^31 + 1)`. Whatever the stack memory
+    holds (any base, any bytes, also ending at 2^64-1) and whatever `eax` is. -/
+theorem arg_recovery_no_panic (frames : List ArgRecovery.Frame) (mem : Option StackMem)
+    (hsp : ∀ g ∈ frames, g.sp ≤ U32MAX)
+    (hname : ∀ f ∈ frames, ∀ n, f.name = some n → validUtf8 n = true ∧ n.length ≤ I32MAX) :
+    NoPanic (fillArguments frames mem) :=
+  fillFrom_ok frames mem hsp frames 0 hname
+
+/-- the bytes of an ASCII literal -/
+def asc (s : String) : Bytes := s.toList.map fun c => UInt8.ofNat c.toNat
+
+/-- nested templates and parentheses hide commas; the pieces are trimmed -/
+example : parseArgList (asc "ns::f(int a, std::map<int, char> , void (*)(int, int))") =
+    .ok (some (.windowsThisCall, [asc "int a", asc "std::map<int, char>", asc "void (*)(int, int)"])) := by
+  decide
+/-- unbalanced nesting: the parser is lost / the result is rejected -/
+example : ∀ n ∈ [asc "f(a>b)", asc "g(a<b)", asc "h(", asc "k(a))(b"],
+    (match parseArgList n with | .ok none => true | _ => false) = true := by decide
+/-- everything between the FIRST `(` and the LAST `)`; multi-byte white space is trimmed:
+    `m(<U+00A0>é ,<U+3000>ü<U+2003>) const` -/
+example : parseArgList ([0x6D, 0x28, 0xC2, 0xA0, 0xC3, 0xA9, 0x20, 0x2C, 0xE3, 0x80, 0x80, 0xC3, 0xBC, 0xE2, 0x80, 0x83, 0x29] ++ asc " const") =
+    .ok (some (.cdecl, [[0xC3, 0xA9], [0xC3, 0xBC]])) := by decide
+/-- the UTF-8 hypothesis is needed by the model: a continuation byte right behind a comma makes
+    `arg_list[arg_start..]` start inside a character (Rust's slice would panic); a `String` never holds that -/
+example : parseArgList [102, 40, 97, 44, 0x80, 41] = .panic "arg_list[arg_start..]" ∧ validUtf8 [102, 40, 97, 44, 0x80, 41] = false := by
+  decide
+/-- two cdecl arguments read from the caller's frame; the third lies beyond the caller's frame pointer -/
+example : fillArguments
+    [⟨100, some (asc "f(a, b, c)"), true, some 7⟩, ⟨104, none, true, none⟩, ⟨112, none, true, none⟩]
+    (some ⟨100, [0,0,0,0, 1,0,0,0, 2,1,0,0, 3,0,0,0]⟩) =
+    .ok [some ⟨.cdecl, [(asc "a", some 1), (asc "b", some 258), (asc "c", none)]⟩, none, none] := by
+  decide
+/-- the `u32` hypothesis is needed by the model (a 64-bit stack pointer next to 2^64 overflows the
+    read head) and cannot arise for `MinidumpRawContext::X86` frames -/
+example : fillArguments [⟨0, some (asc "f(a)"), true, none⟩, ⟨2 ^ 64 - 2, none, true, none⟩, ⟨2 ^ 64 - 1, none, true, none⟩] (some ⟨0, []⟩) =
+    .panic "read_head += POINTER_WIDTH" := by decide
+/-- without a caller frame both limits are the (saturated) end of the stack: nothing is read, nothing moves -/
+example : fillArguments [⟨5, some (asc "A::f(a, b)"), true, some 9⟩] (some ⟨2 ^ 64 - 4, [1, 2, 3, 4, 5, 6, 7, 8]⟩) =
+    .ok [some ⟨.windowsThisCall, [(thisName, some 9), (asc "a", none), (asc "b", none)]⟩] := by decide
+
+end ArgRecoveryTheorems
 
 /-! ## (3) "the resulting state can always be written as full text, brief text and JSON" -/
 
